@@ -33,7 +33,7 @@ def pre(p):
 def shards(tier, seed):
     out = []
     for i in range(0, 30, 5):
-        out.append({"name": "diatonic-%d" % (i // 5), "kind": "diatonic", "keys": [k[0] for k in T.KEYS[i:i + 5]],
+        out.append({"name": "diatonic-%d" % (i // 5), "kind": "diatonic", "keys": [k[0] for k in T.KEYS[i:i + 5]], "after_history": i in (0, 15),
                     "weight": 3})
     out.append({"name": "suffixes", "kind": "suffix", "weight": 3,
                 "keys": ["C", "Eb", "f#"] if tier == "quick" else [k[0] for k in T.KEYS]})
